@@ -57,6 +57,7 @@ fn each_increment_touches_only_its_counter() {
 
 // The discriminants the getters and `add` index with are the documented ones.
 #[kani::proof]
+#[kani::unwind(12)]
 fn stats_type_indices() {
     assert!(StatsType::CacheHits as usize == 0 && StatsType::CacheMisses as usize == 1);
     assert!(StatsType::KeysAdded as usize == 2 && StatsType::KeysDeleted as usize == 3);
